@@ -42,8 +42,8 @@ def histories(res, wd, depth, npar, allperms, label, module="ClassHist", classes
         for e in rec["h"]:
             ev[e["e"]] = ev.get(e["e"], 0) + 1
     res.extra.setdefault("declarations_by_kind", {})[label] = ev
-    if depth >= 2 and (classes is None) and set(ev) != {"O", "S", "X", "R", "T", "U"}:
-        raise Machinery("ClassHist: declaration kinds %s never enumerated" % sorted({"O", "S", "X", "R", "T", "U"} - set(ev)))
+    if depth >= 2 and (classes is None) and set(ev) != {"O", "S", "X", "Q", "R", "T", "U"}:
+        raise Machinery("ClassHist: declaration kinds %s never enumerated" % sorted({"O", "S", "X", "Q", "R", "T", "U"} - set(ev)))
     return out
 
 
